@@ -75,13 +75,15 @@ func (w *World) ProduceTree(p *TreePlan, or Oracles) []*Produced {
 		}
 		txs := w.MakeTxs(pst, st.Txs, i)
 		skip := st.Skip
+		w.Jitter = uint64(st.Jit)
 		res := w.Propose(parent, skip, txs, nil)
 		for try := 0; try < 3 && res.Block != nil && w.Blocks[res.Block.Hash()] != nil; try++ {
 			// identical to an existing block (same parent, slot, proposer, content): use a later slot
 			skip++
+			w.Jitter = uint64(st.Jit)
 			res = w.Propose(parent, skip, txs, nil)
 		}
-		ts := w.SlotTime(w.Blocks[parent], skip)
+		ts := w.SlotTime(w.Blocks[parent], skip) + uint64(st.Jit)
 		if or.C15 {
 			want, ok := w.Tree.ScheduledValidator(pst, ts)
 			if !ok || want.PubKey != res.Validator {
@@ -135,6 +137,29 @@ func (w *World) ProduceTree(p *TreePlan, or Oracles) []*Produced {
 		}
 		if bst.Height%w.P.E == 1 && bst.Height > 1 {
 			r.Count("probe.reward_block", 1)
+		}
+		if or.C15 && bst.Invalid == nil && (bst.Height%w.P.E == 0 || i%4 == 0) {
+			// query the schedule for children of this block over several rotation rounds, on and off the slot grid
+			nv := len(w.Tree.EffectiveValidators(w.Tree.CheckpointOf(bst).Votes))
+			bh := pr.Hash
+			for k := 0; k < 2*nv+2 && !r.Failed(); k++ {
+				for _, off := range []uint64{0, 1, 2999, 5999} {
+					qt := res.Block.Timestamp + w.P.IntervalMs*uint64(1+k) + off
+					want, ok := w.Tree.ScheduledValidator(bst, qt)
+					got, err := res.Node.Chain.GetValidator(&bh, qt)
+					again, err2 := res.Node.Chain.GetValidator(&bh, qt)
+					r.Count("probe.schedule_queries", 1)
+					if err != nil || err2 != nil || got == nil || again == nil || !ok || got.PubKey != want.PubKey || again.PubKey != got.PubKey {
+						gp := "none"
+						if got != nil {
+							gp = got.PubKey[:16]
+						}
+						r.Violate("schedule", "query", "child of %s at t=parent+%dms: node schedules %s…, reference schedule says %.16s… (validators in the epoch: %d)",
+							w.name(bh), qt-res.Block.Timestamp, gp, want.PubKey, nv)
+						break
+					}
+				}
+			}
 		}
 		synctest.Wait()
 	}
